@@ -8,7 +8,7 @@ CASES = [
     ('MCImpl.tla', 'MCImplBugF1.cfg', None), ('MCImpl.tla', 'MCImplBugF2.cfg', None), ('MCImpl.tla', 'MCImplBugF3.cfg', None),
     ('MCImpl.tla', 'MCImplBugF9.cfg', None), ('MCImpl.tla', 'MCImplBugF18.cfg', None), ('MCImpl.tla', 'MCImplBugF15.cfg', 'CountTracks'),
     ('SdHost.tla', 'MCSdBugNoStopWait.cfg', 'Legal'), ('SdHost.tla', 'MCSdBugIgnoreR1.cfg', 'Legal'), ('SdHost.tla', 'MCSdBugNoTerminate.cfg', None),
-    ('SdHost.tla', 'MCSdBugKeepType.cfg', None), ('SdHost.tla', 'MCSdBugNoStatus.cfg', 'FaultIsError'),
+    ('SdHost.tla', 'MCSdBugKeepType.cfg', None), ('SdHost.tla', 'MCSdBugNoStatus.cfg', 'FaultIsError'), ('SdHost.tla', 'MCSdBugPreCount.cfg', 'NowhereElse'),
     ('FatData.tla', 'MCDataBugRewindHalf.cfg', None), ('FatData.tla', 'MCDataBugLateCursor.cfg', None), ('FatData.tla', 'MCDataBugStepInCluster.cfg', 'ReadExact'),
     ('MCApi.tla', 'MCApiWrap.cfg', 'HandlesDistinct'),
 ]
